@@ -87,7 +87,8 @@ CertOk(c) ==
 (***************************************************************************)
 (* State machine: the environment picks an instance, the policy decides.   *)
 (***************************************************************************)
-CONSTANTS MaxT, MaxS, RewardVals, Policies
+CONSTANTS MaxT, MaxS, RewardVals, Policies,
+          VisBonus   \* 0; > 0 only in the non-vacuity cfg Decisions_deviation_bonus.cfg (see Decided)
 
 VARIABLES inst, dec, pc
 vars == <<inst, dec, pc>>
@@ -110,8 +111,16 @@ PoseVisibility == /\ pc = "rewards"
                   /\ \E V \in Matrices(inst.nt, inst.ns, {0, 1}) : inst' = [inst EXCEPT !.V = V]
                   /\ pc' = "posed" /\ UNCHANGED dec
 
+\* DEVIATION (VisBonus > 0): the assignment is solved on R + VisBonus * V ("prefer visible pairs among
+\* equally good assignments" with an ABSOLUTE bonus).  Harmless while every difference of two totals is
+\* larger than the bonus differences (rewards that are multiples of a unit > min(nt, ns) * VisBonus);
+\* on rewards of the bonus' own magnitude the number of visible pairs is maximised instead of the
+\* total: MunkresOptimal refutes it on the lattice {0, 1, 2}, not on {0, 8, 16} (control cfg).
+Biased(r) == [r EXCEPT !.R = [t \in Rows(r) |-> [s \in Cols(r) |-> r.R[t][s] + VisBonus * r.V[t][s]]]]
+Decided(r) == IF VisBonus > 0 /\ r.p = "munkres" THEN {Mask(r, A) : A \in MaxTotal(Biased(r))} ELSE Admissible(r)
+
 Decide == /\ pc = "posed"
-          /\ dec' \in Admissible(inst)
+          /\ dec' \in Decided(inst)
           /\ pc' = "decided"
           /\ UNCHANGED inst
 
@@ -125,6 +134,11 @@ RelabelEquivariant ==
   pc = "posed" =>
     \A pi \in Perms(Rows(inst)), sg \in Perms(Cols(inst)) :
        {PermBack(D, pi, sg) : D \in Admissible(PermRec(inst, pi, sg))} = Admissible(inst)
+\* the unit of the rewards is irrelevant: multiplying every reward by c > 0 leaves the admissible set
+\* unchanged (checked for c = 2, 3 on the lattice; invariance under 1/c follows)
+ScaleRec(r, c) == [r EXCEPT !.R = [t \in Rows(r) |-> [s \in Cols(r) |-> c * r.R[t][s]]]]
+ScaleInvariant ==
+  pc = "posed" => \A c \in {2, 3} : Admissible(ScaleRec(inst, c)) = Admissible(inst)
 \* munkres: every admissible decision comes from an assignment whose total is maximal
 MunkresOptimal ==
   (pc = "decided" /\ inst.p = "munkres") =>
